@@ -58,3 +58,11 @@ package shared
 //@   ensures len(s) > 0 ==> 1 <= result1 && result1 <= 4 && result1 <= len(s)
 //@   ensures len(s) > 0 && s[len(s)-1] < 128 ==> result0 == int32(s[len(s)-1]) && result1 == 1
 //@   ensures len(s) > 0 && s[len(s)-1] >= 128 ==> result0 >= 128 && result0 <= 1114111
+
+// strings.LastIndexByte: index of the last occurrence, or -1
+//@ func strings.LastIndexByte
+//@   trusted
+//@   opt pure
+//@   ensures result == -1 || (0 <= result && result < len(s) && s[result] == c)
+//@   ensures result == -1 ==> (forall k int :: 0 <= k && k < len(s) ==> s[k] != c)
+//@   ensures result >= 0 ==> (forall k int :: result < k && k < len(s) ==> s[k] != c)
